@@ -306,7 +306,7 @@ class Verdict:
         log("DIVERGENCE %s: %s" % (self.prop, desc))
 
     def known(self, entry, what):
-        self.known_hit.setdefault(entry["tag"], what)
+        self.known_hit.setdefault(entry["tag"], (entry.get("property", self.prop), what))
 
     def classify(self, cause, desc, replay_obj):
         """route a real-code divergence: listed known finding or violation"""
@@ -327,8 +327,8 @@ class Verdict:
         os.makedirs(EVID, exist_ok=True)
         with open(os.path.join(EVID, self.prop + ".json"), "w") as f:
             json.dump(ev, f, indent=1, default=str)
-        for tag, what in sorted(self.known_hit.items()):
-            log("KNOWN-FINDING: property=%s %s: %s" % (self.prop, tag, what))
+        for tag, (kprop, what) in sorted(self.known_hit.items()):
+            log("KNOWN-FINDING: property=%s %s: %s" % (kprop, tag, what))
         for path, desc in self.violations:
             log("VIOLATION property=%s replay=%s" % (self.prop, path))
         log("%s %s seed=%d: %s in %.1fs (scenarios=%d, traces validated=%d, MC states=%d)" % (
